@@ -9,6 +9,7 @@ use serde_json::{json, Value};
 use spdcalc::dim::ucum::{HZ, M, RAD, S};
 use spdcalc::math::Integrator;
 use spdcalc::utils::Steps;
+use spdcalc::beam::IdlerBeam;
 use spdcalc::*;
 
 pub fn observe_config(id: usize, mal: usize, tags: Vec<String>, j: Value, with_calls: bool) -> Value {
@@ -86,7 +87,8 @@ pub fn finite_calls(s: &SPDC) -> Value {
     if !ci.is_finite() { bad.push("counts_singles_idler"); }
     if hom.iter().any(|z| !z.is_finite()) { bad.push("hom_rate_series"); }
     let bad_norm = jsn.iter().any(|z| !z.is_finite());
-    json!({"class": "ok", "inside_window": inside, "nonfinite": bad, "normalized_nonfinite": bad_norm,
+    let jsa_all_zero = jsa.iter().all(|z| z.re == 0. && z.im == 0.);
+    json!({"class": "ok", "inside_window": inside, "nonfinite": bad, "normalized_nonfinite": bad_norm, "jsa_all_zero": jsa_all_zero,
            "cc": fx(cc), "cs": fx(cs), "ci": fx(ci)})
   });
   match r {
@@ -123,21 +125,53 @@ pub fn run(args: &[String]) {
   // fixed corpus: lambda_s <= lambda_p in every auto/explicit combination (DESIGN F7), NaN-cost searches, zero period
   let mut id = 0usize;
   for (name, j) in corpus() {
-    emit(observe_config(id, 100, vec![name.to_string()], j, false));
+    let with_calls = name.contains("spectrum_calls") || name == "valid_reference";
+    emit(observe_config(id, 100, vec![name.to_string()], j, with_calls));
     id += 1;
   }
+  api_observations();
   let mut calls_done = 0usize;
   for k in 0..n {
     let mal = mal_class(k);
     let mut tags = vec![];
     let j = gen_config(&mut rng, mal, &mut tags);
-    let with_calls = mal == 0 && calls_done < ncalls;
+    // spectrum / rate / HOM calls: on the valid stream, and on the boundary classes with crystal angle exactly 0
+    let with_calls = (mal == 0 && calls_done < ncalls) || ((mal == 5 || mal == 6) && k % 3 == 0 && calls_done < 2 * ncalls);
     let o = observe_config(id, mal, tags, j, with_calls);
     if !o["calls"].is_null() {
       calls_done += 1;
     }
     emit(o);
     id += 1;
+  }
+}
+
+/// The lambda_s <= lambda_p error at the Beam / IdlerBeam / SPDC API level (below the configuration's own validation)
+pub fn api_observations() {
+  let base = serde_json::from_value::<SPDCConfig>(corpus()[0].1.clone()).ok().and_then(|c| c.try_as_spdc().ok());
+  let s = match base {
+    Some(s) => s,
+    None => return,
+  };
+  let lp = *(s.pump.vacuum_wavelength() / M);
+  for (name, f) in [("ls_eq_lp", 1.0), ("ls_lt_lp", 0.8), ("ls_gt_lp", 2.0)] {
+    let mut t = s.clone();
+    if f == 1.0 {
+      t.signal.set_frequency(t.pump.frequency());
+    } else {
+      t.signal.set_vacuum_wavelength(lp * f * M);
+    }
+    let a = outcome(|| IdlerBeam::try_new_optimum(&t.signal, &t.pump, &t.crystal_setup, &t.pp));
+    let b = outcome(|| t.optimum_idler());
+    let c = outcome(|| t.clone().with_optimum_idler());
+    let d = outcome(|| IdlerBeam::try_new_optimum(&t.signal, &t.pump, &t.crystal_setup, PeriodicPoling::Off));
+    let fin = |o: &(String, String, String, Option<IdlerBeam>)| o.3.as_ref().map(|b| (*(b.vacuum_wavelength() / M)).is_finite() && *(b.vacuum_wavelength() / M) > 0.);
+    emit(json!({"kind": "api", "case": name, "ls": fx(*(t.signal.vacuum_wavelength() / M)), "lp": fx(lp),
+      "signal": beam_json(&t.signal), "pump": beam_json(&t.pump), "crystal": crystal_json(&t.crystal_setup),
+      "try_new_optimum": {"class": a.0, "msg": a.1, "loc": a.2, "wavelength_ok": fin(&a)},
+      "try_new_optimum_unpoled": {"class": d.0, "msg": d.1, "loc": d.2, "wavelength_ok": fin(&d)},
+      "optimum_idler": {"class": b.0, "msg": b.1, "loc": b.2, "wavelength_ok": fin(&b)},
+      "with_optimum_idler": {"class": c.0, "msg": c.1, "loc": c.2}}));
   }
 }
 
@@ -170,5 +204,31 @@ pub fn corpus() -> Vec<(&'static str, Value)> {
     ("signal_80deg:pp_auto", base(1550., 775., json!(90), ppa.clone(), json!("auto"), 80.)),
     ("zero_period", base(1550., 775., json!(90), json!({"poling_period_um": 0.0}), json!("auto"), 0.)),
     ("auto_theta_with_poling", base(1550., 775., json!("auto"), ppe.clone(), json!("auto"), 0.)),
+    ("negative_explicit_period", base(1550., 775., json!(90), json!({"poling_period_um": -46.5}), json!("auto"), 0.)),
+    ("negative_explicit_period:noncollinear", base(1550., 775., json!(90), json!({"poling_period_um": -30.25}), json!("auto"), 1.5)),
+    ("both_angles:internal_zero", {
+      let mut j = base(1550., 775., json!(90), Value::Null, json!("auto"), 0.);
+      j["signal"]["theta_external_deg"] = json!(2.5);
+      j
+    }),
+    ("both_angles:idler_internal_zero", {
+      let mut j = base(1550., 775., json!(90), Value::Null, json!({"wavelength_nm": 1550, "phi_deg": 180, "theta_deg": 0, "theta_external_deg": 1.5, "waist_um": 100}), 0.);
+      j["signal"]["theta_deg"] = json!(1.0);
+      j
+    }),
+    ("theta_auto:waist_auto:e_eo:bbo", json!({
+      "crystal": {"kind": "BBO_1", "pm_type": "e->eo", "phi_deg": 0, "theta_deg": "auto", "length_um": 2000, "temperature_c": 20},
+      "pump": {"wavelength_nm": 405, "waist_um": 100, "bandwidth_nm": 1.0, "average_power_mw": 1},
+      "signal": {"wavelength_nm": 810, "phi_deg": 0, "theta_deg": 0, "waist_um": 100, "waist_position_um": "auto"},
+      "idler": "auto", "deff_pm_per_volt": 2.0
+    })),
+    ("theta_auto:waist_auto:e_ee:ktp_noncollinear", json!({
+      "crystal": {"kind": "KTP", "pm_type": "Type0_e_ee", "phi_deg": 0, "theta_deg": "auto", "length_um": 3000, "temperature_c": 30},
+      "pump": {"wavelength_nm": 532, "waist_um": 80, "bandwidth_nm": 0.5, "average_power_mw": 2},
+      "signal": {"wavelength_nm": 1000, "phi_deg": 20, "theta_external_deg": 2.0, "waist_um": 60},
+      "deff_pm_per_volt": 3.0
+    })),
+    ("crystal_theta_zero:spectrum_calls", base(1550., 775., json!(0), ppa.clone(), json!("auto"), 0.)),
+    ("crystal_theta_zero:no_pp:spectrum_calls", base(1550., 775., json!(0.0), Value::Null, json!("auto"), 0.5)),
   ]
 }
